@@ -100,7 +100,59 @@ func RandArgs(r *sg.Rng, root *sg.Schema) []string {
 	if root != nil && root.ID != "" && r.Chance(0.5) {
 		a = append(a, "--schema-root-type", root.ID+"=CustomRoot")
 	}
+	if r.Chance(0.15) {
+		a = append(a, sg.PickOf(r, []string{"--verbose", "-v"})) // logging only: nothing that is checked may depend on it
+	}
 	return a
+}
+
+// RespellOpts writes the same options differently: short for long flags, --flag=value for --flag value, repeated
+// flags for comma-joined lists and the other way round.
+func RespellOpts(opts []string) []string {
+	takesValue := map[string]bool{"--tags": true, "--capitalization": true, "--schema-package": true, "--schema-output": true, "--schema-root-type": true,
+		"--resolve-extension": true, "--yaml-extension": true, "-o": true, "--output": true, "-p": true, "--package": true}
+	short := map[string]string{"--extra-imports": "-e", "--struct-name-from-title": "-t", "--verbose": "-v", "-v": "--verbose", "-o": "--output", "-p": "--package"}
+	var out []string
+	lists := map[string][]string{}
+	var listOrder []string
+	for i := 0; i < len(opts); i++ {
+		f := opts[i]
+		val := ""
+		if eq := strings.Index(f, "="); strings.HasPrefix(f, "--") && eq > 0 && takesValue[f[:eq]] {
+			f, val = f[:eq], f[eq+1:]
+		} else if takesValue[f] && i+1 < len(opts) {
+			i++
+			val = opts[i]
+		}
+		switch f {
+		case "--tags", "--capitalization", "--resolve-extension":
+			if _, seen := lists[f]; !seen {
+				listOrder = append(listOrder, f)
+			}
+			lists[f] = append(lists[f], strings.Split(val, ",")...)
+		default:
+			if s, ok := short[f]; ok {
+				f = s
+			}
+			if val == "" && !takesValue[f] {
+				out = append(out, f)
+			} else if strings.HasPrefix(f, "--") {
+				out = append(out, f+"="+val)
+			} else {
+				out = append(out, f, val)
+			}
+		}
+	}
+	for k, f := range listOrder {
+		if k%2 == 0 {
+			out = append(out, f+"="+strings.Join(lists[f], ","))
+		} else {
+			for _, v := range lists[f] {
+				out = append(out, f, v)
+			}
+		}
+	}
+	return out
 }
 
 // genFinding is a recorded generator-side defect: trigger predicate + neutraliser + diagnostics it may explain.
